@@ -82,7 +82,13 @@ class StubValidatorClass:
         return Inst()
 
 
-def run_scenario(prog, schema_state, instances, output="plain", explicit=False, base_uri=None, stdin_state=None, repeat_first=False, names=None, decoys=None):
+class _Tty(io.StringIO):
+    """standard input attached to a terminal: still the place the instance is read from"""
+    def isatty(self):
+        return True
+
+
+def run_scenario(prog, schema_state, instances, output="plain", explicit=False, base_uri=None, stdin_state=None, repeat_first=False, names=None, decoys=None, tty=False):
     """-> dict(exit, opened, log, out, err)"""
     ev = Ev(prog, fuel=120000, real_errors=True)
     Obj.ev = ev
@@ -108,12 +114,13 @@ def run_scenario(prog, schema_state, instances, output="plain", explicit=False, 
     other = StubValidatorClass("Other", ev, log, SE, VE)
     ev.module_value("validators", "meta_schemas")["http://reg/other"] = other
     out, err = io.StringIO(), io.StringIO()
+    SIO = _Tty if tty else io.StringIO
     if stdin_state is None:
-        stdin = io.StringIO("")
+        stdin = SIO("")
     elif stdin_state == NOTJSON:
-        stdin = io.StringIO("{not json")
+        stdin = SIO("{not json")
     else:
-        stdin = io.StringIO(json.dumps(value_of(stdin_state)))
+        stdin = SIO(json.dumps(value_of(stdin_state)))
     arguments = {"validator": given if explicit else None, "schema": "schema.json", "instances": paths if instances is not None else None,
                  "error_format": "<{error.message}>\u2713\u00e9" if output == "plain" else None, "output": output, "base_uri": base_uri}
     run = prog.func("cli.run")
@@ -171,13 +178,22 @@ def cli_eval(prog):
         decoy_ok = {p: {"errors": 0} for p in ("i0.json", "i1.json", "dir/i2.json", "i3.json", "i4.json", "i5.json", "i6.json", "a/i7.json")}
         scenarios.append((good, [MISSING, {"errors": 1}, {"errors": 2}, {"errors": 0}, MISSING, NOTJSON, {"errors": 0}, {"errors": 1}], "plain", False, None, None, ODD, decoy_ok))
         scenarios.append((good, [{"errors": 0}] * 8, "pretty", False, None, None, ODD, {p: {"errors": 3} for p in decoy_ok}))
+        # --base-uri is the base, whatever the schema says about itself (a relative $id / id is the class's business, joined by the
+        # validator against the resolver's base; the CLI neither reads nor joins it)
+        for ids in ({"$id": "root.json", "type": "object"}, {"id": "../other/", "type": "object"}, {"$id": "http://elsewhere/s.json", "id": "x", "type": "object"}):
+            for explicit in (False, True):
+                scenarios.append((ids, [{"errors": 0}, {"errors": 1}], "plain", explicit, "http://base/dir/", None))
+        # standard input attached to a terminal is read like any other
+        for sin in ({"errors": 0}, {"errors": 2}):
+            scenarios.append((good, None, "plain", False, None, sin, None, None, True))
         n_run = 0
         for sc in scenarios:
             (sst, insts, output, explicit, base, sin), names, decoys = sc[:6], (sc[6] if len(sc) > 6 else None), (sc[7] if len(sc) > 7 else None)
+            tty = sc[8] if len(sc) > 8 else False
             rep = bool(insts) and insts[-1] == "REPEAT"
             if rep:
                 insts = insts[:-1]
-            res = run_scenario(prog, sst, insts, output, explicit, base, sin, repeat_first=rep, names=names, decoys=decoys)
+            res = run_scenario(prog, sst, insts, output, explicit, base, sin, repeat_first=rep, names=names, decoys=decoys, tty=tty)
             if rep:
                 insts = insts + [insts[0]]
             n_run += 1
